@@ -52,7 +52,9 @@ class Contract:
                  returns=None, raises=None, call_ghost=None, gen=None, notes="", obligations_for=None,
                  assumed=None, after_loop=None, hints=None, rt_only=None, ghost_vars=None, ghost_after=None,
                  exit_hints=None, vec_counts=None, after_assign=None, abstract_mul=False, entry_hints=None,
-                 unroll=None, fields=None, fixed=None, fragment=None):
+                 unroll=None, fields=None, fixed=None, fragment=None, call_hints=None):
+        # call_hints: {callee: [lemma calls]} facts added right after each call to `callee` (after the ghost updates)
+        self.call_hints = dict(call_hints or {})
         # fragment: {"loop": k} verify only the k-th loop of the function (a top-level statement of its body) in
         # isolation: `params` then declares its live-in variables; what precedes / follows the loop is not verified
         self.fragment = fragment
@@ -109,8 +111,11 @@ class Lemma:
     Once proved it is available (quantified, with the stated trigger terms) to the VCs of the listed contracts."""
 
     def __init__(self, name, params, statement, props, induction=None, base="0", requires=None, hints=None,
-                 use_lemmas=(), base_hints=None):
+                 use_lemmas=(), base_hints=None, intro=None):
         self.base_hints = base_hints or []
+        # intro: {var: (lo, hi)}: the lemma states  forall var in [lo, hi): statement ; it is proved for an arbitrary
+        # var in the range (the hints may mention var) and used as the quantified fact
+        self.intro = dict(intro or {})
         self.name, self.params, self.statement, self.props = name, dict(params), statement, list(props)
         self.induction, self.base = induction, base
         self.requires = _named(requires, "h")
